@@ -125,6 +125,10 @@ async fn run_typed<K: Kind>(addr: SocketAddr, certs: &Certs, c: &Case) -> Outcom
                     }
                     let item = match dec.decode(&mut BytesMut::from(&bytes[..])) { Ok(i) => i, Err(e) => { bad.push(format!("request does not decode: {e}")); continue } };
                     let body = K::body(&item);
+                    if body.starts_with(b"warmup") {
+                        let _ = rs.send(Frame::Message(MessagePayload { headers: m.headers, message: make_reply(&body) })).await;
+                        continue;
+                    }
                     let idx: usize = String::from_utf8_lossy(&body).split('#').nth(1).and_then(|s| s.parse().ok()).unwrap_or(usize::MAX);
                     if idx >= plans2.len() { bad.push(format!("unparseable request body {:?}", String::from_utf8_lossy(&body[..body.len().min(40)]))); continue }
                     held.push((m, body, idx));
@@ -160,6 +164,36 @@ async fn run_typed<K: Kind>(addr: SocketAddr, certs: &Certs, c: &Case) -> Outcom
         bad
     });
 
+    // `Ok` does not yet mean the replier is bound (the socket reaches the router later):
+    // a raw requestor repeats a warm-up request until the scripted replier's answer arrives
+    {
+        let (ws, wr) = match raw_open(&rconn, reg_req("c04ns", &topic_t), Duration::from_secs(10)).await {
+            Ok(x) => x,
+            Err(e) => return Outcome::Inconclusive(format!("warm-up requestor: {e}")),
+        };
+        if !matches!(wr, FirstReply::Frame(Frame::Ok)) {
+            return Outcome::fail("requestor-registration-not-ok", format!("{wr:?}"));
+        }
+        let mut wp = Peer::spawn(ws, false);
+        let enc = K::enc();
+        let t = Instant::now();
+        let mut bound = false;
+        let mut k = 0;
+        while t.elapsed() < Duration::from_secs(10) && !bound {
+            k += 1;
+            let mut b = enc.encode(K::item(format!("warmup{k}").into_bytes())).unwrap();
+            if let Some(a) = c.req_comp {
+                b = c14::make(a).0.compress(b).unwrap();
+            }
+            let mut h = std::collections::HashMap::new();
+            h.insert("req_id".to_string(), format!("{k}"));
+            wp.send(Frame::Message(MessagePayload { headers: Some(h), message: b }));
+            bound = wp.wait_for(Duration::from_millis(if k < 20 { 60 } else { 300 }), |f| matches!(f, Frame::Message(_))).await;
+        }
+        if !bound {
+            return Outcome::Inconclusive("warm-up: the scripted replier never answered within 10 s".into());
+        }
+    }
     let client = match client(addr, certs).await {
         Ok(c) => c,
         Err(e) => return Outcome::Inconclusive(format!("client connect: {e}")),
